@@ -31,6 +31,14 @@ func runC06(rc *sim.RunCtx) {
 	}
 	defer w.Close()
 	m := NewModel(w.SI)
+	{
+		hi := NewMLeaf(w.SI, world.P(world.E("cons"), world.E("hi")), "5")
+		lo := NewMLeaf(w.SI, world.P(world.E("cons"), world.E("lo")), "1")
+		if err := w.SeedRunning([]*world.Leaf{{Path: hi.Path, Abs: hi.Abs, TV: MkTV(hi.Node, hi.Lex, "typed")}, {Path: lo.Path, Abs: lo.Abs, TV: MkTV(lo.Node, lo.Lex, "typed")}}); err != nil {
+			rc.HarnessErr("seed: %v", err)
+			return
+		}
+	}
 	cfg := SwarmCfg(t, "core", map[string]bool{"create": true, "change": true, "grow": true, "shrink": true, "delete": true, "reprio": true})
 	cfg.FormW = []int{1, 0, 0, 0}
 	g := NewGen(t, w.SI, cfg)
@@ -66,6 +74,12 @@ func runC06(rc *sim.RunCtx) {
 		switch kind {
 		case "invalid":
 			tx = &TxSpec{ID: fmt.Sprintf("x%d", txn), Intents: []IntentSpec{{Name: "bad", Prio: 99, Leaves: []*MLeaf{invalidLeaf(w.SI)}, Edit: "create", Form: "typed"}}}
+			if t.Bool(1, 2) {
+				// the violated constraint sits on config the transaction does not own: /cons/hi (unhandled running
+				// config, must ". >= ../lo") becomes invalid when the intent sets /cons/lo above it
+				rc.Probe("invalid-foreign-owner")
+				tx.Intents[0].Leaves = []*MLeaf{NewMLeaf(w.SI, world.P(world.E("cons"), world.E("lo")), "9")}
+			}
 		default:
 			tx = g.GenTx(m)
 			if tx == nil {
@@ -123,7 +137,7 @@ func runC06(rc *sim.RunCtx) {
 			w.NoteTimer(time.Duration(to) * time.Second)
 		case "invalid":
 			if res.Err == nil && !res.HasIntentErrors() {
-				rc.Report(sim.Item{Prop: "C03", Clause: "C03.invalid-accepted", Step: step, Fields: f, Detail: "an intent violating a length constraint was accepted"})
+				rc.Report(sim.Item{Prop: "C03", Clause: "C03.invalid-accepted", Step: step, Fields: f, Detail: "an intent violating a length / must constraint was accepted"})
 				s = slot{open: true, id: tx.ID, deadline: time.Now().Add(time.Duration(to) * time.Second)}
 			}
 		case "dryrun":
@@ -274,7 +288,7 @@ func init() {
 		ID: "C06", Level: "exploration", Run: runC06,
 		Rule: "seeded sequences (3-8 ops, thorough up to 14) over {SetTx valid/invalid/dry-run/device-error with timeout 1/5/30/600 s, Confirm(id), Cancel(id) with matching/stale/unknown ids, Wait(d) around the deadline} on the fake clock; every call carries a 2 s simulated RPC deadline. Oracle: transaction-slot model (exclusive, id-scoped, wrong ids have no effect and the timer still fires, rollback traffic exactly once at expiry/cancel) and a final liveness probe: after waiting past the timeout with no client action a valid TransactionSet is accepted. Non-trivial = a SetTx or wrong-id call while a transaction is open; distinct = sequence signature.",
 		Real: realCore, Stub: stubCore,
-		RequiredProbes: []string{"expiry", "set-while-open", "wrong-id-Confirm", "wrong-id-Cancel"},
+		RequiredProbes: []string{"expiry", "set-while-open", "wrong-id-Confirm", "wrong-id-Cancel", "invalid-foreign-owner"},
 		QuickSeconds:   30, ThoroughSeconds: 480,
 	})
 }
